@@ -1305,7 +1305,7 @@ class TexArgs(list):
         >>> arguments[4]
         BraceGroup('arg4')
         """
-        for arg in args:
+        for arg in list(args):
             self.append(arg)
 
     def insert(self, i, arg):
